@@ -174,7 +174,7 @@ func (b *builder) variant(base gen.MsgSpec) (gen.MsgSpec, string) {
 					first = v[:c]
 				}
 				if bi := strings.Index(first, ";branch"); bi >= 0 && !strings.Contains(first, "\"") {
-					ins := b.r.Pick([]string{";x=\"a,b\"", ";y=\"p;q\"", ";rport", ";ttl=1", ";z=\"\\\"\"", ";received=10.0.0.1", ";maddr=a.b-c_d", ";w=0123456789abcdef"})
+					ins := b.r.Pick([]string{";x=\"a,b\"", ";y=\"p;q\"", ";rport", ";ttl=1", ";z=\"\\\"\"", ";received=10.0.0.1", ";maddr=a.b-c_d", ";w=0123456789abcdef", ";e=\"\"", ";e=\"\";f=1", ";g=\"\\\\\""})
 					m.Hdrs[i].Val = v[:bi] + ins + v[bi:]
 					what = append(what, "via-params")
 				}
@@ -228,6 +228,10 @@ func (b *builder) buildC19() {
 	// methods as RFC 3261 writes them, or extension tokens in upper case (how a method token is
 	// classified is C08/C16's business; the signature model only needs to know what an INVITE is)
 	method := b.r.Pick([]string{"INVITE", "INVITE", "INVITE", "REGISTER", "OPTIONS", "BYE", "SUBSCRIBE", "ACK", "CANCEL", "NOTIFY", "MESSAGE", "XFOO", "X-EXT"})
+	if b.r.Chance(1, 15) {
+		// method names are case-sensitive (C08 / C16): these are extension methods, not INVITE / REGISTER
+		method = b.r.Pick([]string{"Invite", "invite", "INVITe", "iNVITE", "Register", "bye", "INVITEX", "INVIT"})
+	}
 	o := gen.MsgOpts{Request: 1, CL: gen.CLExact, BodyMax: 80, MaxHdrs: b.r.PickInt(0, 0, 6, 12), ForceMethod: method, ValidStatus: true, Canonical: true}
 	if b.r.Chance(1, 12) {
 		o.Request = 0 // replies: no signature
